@@ -220,4 +220,22 @@ theorem sound_block_seek (C : Crypto) (bs : Array Bytes) (t : Tree) (f : File) (
         ∧ (n0.length = (RefTree.node C bs d o).1 → ∀ n ∈ srest, ∃ dn on, n = RefTree.nodeAt C bs dn on)) :=
   SeekSound.block_seek_sound C bs t f pk p b s n0 srest cs hb hs hsn hu (CreateTotal.canon_of_lt _ (by omega)) hauth hv
 
+/-- **hash + seek proofs** (no upgrade; the hash section starts with the requested node or the seek root is the requested
+    node): the requested node carries the writer's hash; if its size is the writer's, the rest of the hash section and
+    the seek root are the writer's, hence the bottom node of the seek section carries the writer's hash, and if its size
+    is the writer's too, so is every node of the seek section. -/
+theorem sound_hash_seek (C : Crypto) (bs : Array Bytes) (t : Tree) (f : File) (pk : Bytes) (p : Proof) (hsec : Codec.DataHash) (s : Codec.DataSeek)
+    (m0 : Codec.Node) (hrest : List Codec.Node) (n0 : Codec.Node) (srest : List Codec.Node) (cs : Changeset) (hb : p.block = none) (hh : p.hash = some hsec)
+    (hhn : hsec.nodes = m0 :: hrest) (hs : p.seek = some s) (hsn : s.nodes = n0 :: srest) (hu : p.upgrade = none)
+    (hcan : n0.index < 2 ^ 64) (hcanh : hsec.index < 2 ^ 64) (hauth : Sound.StoreAuthentic C bs t f) (hv : t.verifyProof C f p pk = .ok cs) :
+    Sound.Collision C ∨ ∃ dh oh d o, hsec.index = Flat.index dh oh ∧ n0.index = Flat.index d o ∧
+      ((∃ sroot : Codec.Node, sroot.index = hsec.index ∧ sroot.hash = (RefTree.node C bs dh oh).2 ∧ n0.hash = (RefTree.node C bs d o).2
+          ∧ (n0.length = (RefTree.node C bs d o).1 → ∀ n ∈ srest, ∃ dn on, n = RefTree.nodeAt C bs dn on))
+        ∨ (m0.index = hsec.index ∧ m0.hash = (RefTree.node C bs dh oh).2
+          ∧ (m0.length = (RefTree.node C bs dh oh).1 → (∀ n ∈ hrest, ∃ dn on, n = RefTree.nodeAt C bs dn on)
+              ∧ (Sound.Collision C ∨ (n0.hash = (RefTree.node C bs d o).2
+                ∧ (n0.length = (RefTree.node C bs d o).1 → ∀ n ∈ srest, ∃ dn on, n = RefTree.nodeAt C bs dn on)))))) :=
+  SeekSound.hash_seek_sound C bs t f pk p hsec s m0 hrest n0 srest cs hb hh hhn hs hsn hu (CreateTotal.canon_of_lt _ (by omega))
+    (CreateTotal.canon_of_lt _ (by omega)) hauth hv
+
 end HC.C04
